@@ -241,6 +241,10 @@ static std::string doDoc(const std::vector<std::string>& a) {
     } else
         p->setFeature(XMLUni::fgXercesLoadExternalDTD, false);
     bool full = cfg.find('f') != std::string::npos;
+    // "L<n>" at the end of cfg: low-water mark of the raw buffer (property http://apache.org/xml/properties/low-water-mark)
+    XMLSize_t lowV = 0;
+    size_t lpos = cfg.find('L');
+    if (lpos != std::string::npos) { lowV = (XMLSize_t)atol(cfg.c_str() + lpos + 1); p->setProperty(XMLUni::fgXercesLowWaterMark, &lowV); }
     DumpHandler h;
     p->setContentHandler(&h);
     p->setErrorHandler(&h);
